@@ -480,7 +480,7 @@ func plans() map[string]*propertyPlan {
 			minObserved: map[string]int64{"cases": 1000},
 			nontrivial:  "nontrivial", evaluations: "cases,large_cases,stacked_cases,out_of_contract_cases", exhaustive: true,
 			quick:    []spec{{family: "enum", shards: 16, params: map[string]string{"alphabet": "ab\n", "maxlen": "6"}, cpuS: 600, asKB: 8 << 20, wallS: 900}, {family: "enum", shards: 16, params: map[string]string{"alphabet": `"\x00\r\n\xff-"`, "maxlen": "5"}, cpuS: 600, asKB: 8 << 20, wallS: 900}, {family: "large", shards: 16, cpuS: 600, asKB: 8 << 20, wallS: 900}, {family: "stacked", shards: 15, cpuS: 600, asKB: 8 << 20, wallS: 900}},
-			thorough: []spec{{family: "enum", shards: 64, params: map[string]string{"alphabet": "ab\n", "maxlen": "8"}, cpuS: 3600, asKB: 8 << 20, wallS: 5400}, {family: "enum", shards: 16, params: map[string]string{"alphabet": "a\n", "maxlen": "10"}, cpuS: 3600, asKB: 8 << 20, wallS: 5400}, {family: "enum", shards: 32, params: map[string]string{"alphabet": `"\x00\r\n\xff-"`, "maxlen": "7"}, cpuS: 3600, asKB: 8 << 20, wallS: 5400}, {family: "large", shards: 16, cpuS: 600, asKB: 8 << 20, wallS: 900}, {family: "stacked", shards: 15, cpuS: 600, asKB: 8 << 20, wallS: 900}},
+			thorough: []spec{{family: "enum", shards: 64, params: map[string]string{"alphabet": "ab\n", "maxlen": "8"}, cpuS: 3600, asKB: 8 << 20, wallS: 5400}, {family: "enum", shards: 16, params: map[string]string{"alphabet": "a\n", "maxlen": "10"}, cpuS: 3600, asKB: 8 << 20, wallS: 5400}, {family: "enum", shards: 32, params: map[string]string{"alphabet": `"\x00\r\n\xff-"`, "maxlen": "6"}, cpuS: 3600, asKB: 8 << 20, wallS: 5400}, {family: "large", shards: 16, cpuS: 600, asKB: 8 << 20, wallS: 900}, {family: "stacked", shards: 15, cpuS: 600, asKB: 8 << 20, wallS: 900}},
 		},
 	}
 }
